@@ -293,8 +293,11 @@ def gen_call(r, F, desc, style=None):
         for _ in range(r.randint(0, 2)):
             pos.append(value_for(star_ann))
     if has_dstar:
-        for j in range(r.randint(0, 2)):
-            kw.append([K.nid(f'x{j}'), value_for(dstar_ann)])
+        own = {K.name_of(p['name']) for p in desc['params']}
+        # keys of **kwargs: also the names other callables use for their named parameters (state kept between calls must not leak)
+        pool = [n for n in ('x0', 'x1', 'p0', 'p1', 'p2', 'k0') if n not in own]
+        for key in r.sample(pool, min(len(pool), r.randint(0, 2))):
+            kw.append([K.nid(key), value_for(dstar_ann)])
     if r.random() < 0.03:
         kw.append([K.nid('zz'), K.lit(1)])       # surplus keyword
     r.shuffle(kw)
